@@ -147,7 +147,12 @@ class _WHandle:
         data = "".join(self.buf)
         self.buf = []
         if torn:
-            data = data[:len(data) // 2]
+            # a torn write: only a prefix reaches the disk; where it is cut depends (deterministically)
+            # on the event number, and never on a line boundary if that can be avoided
+            cut = (len(data) * ((self.fs.n * 7 + 3) % 11 + 1)) // 12
+            while 0 < cut < len(data) and data[cut - 1] == "\n":
+                cut += 1
+            data = data[:cut]
         if data:
             with builtins.open(self.path, "a") as f:
                 f.write(data)
